@@ -42,6 +42,37 @@ def fullmatch(p, s, secs=2):
         signal.signal(signal.SIGALRM, old)
 
 
+def anchors_only_at_ends(p):
+    """the supported grammar has anchors at the pattern ends only; patterns with an anchor anywhere else are outside
+    both lists of the property and are not used"""
+    import sys
+    sre = sys.modules.get("re._parser") or __import__("sre_parse")
+    src = sys.modules.get("re._constants") or __import__("sre_constants")
+
+    def has_at(items):
+        for op, av in items:
+            if op == src.AT:
+                return True
+            if op == src.SUBPATTERN and has_at(av[3]):
+                return True
+            if op in (src.MAX_REPEAT, src.MIN_REPEAT) and has_at(av[2]):
+                return True
+            if op == src.BRANCH and any(has_at(a) for a in av[1]):
+                return True
+            if op in (src.ASSERT, src.ASSERT_NOT) and has_at(av[1]):
+                return True
+        return False
+    try:
+        items = list(sre.parse(p))
+    except Exception:
+        return False
+    if items and items[0][0] == src.AT:
+        items = items[1:]
+    if items and items[-1][0] == src.AT:
+        items = items[:-1]
+    return not has_at(items)
+
+
 def generate(p, policy):
     with SR.scripted(policy) as m:
         r = Random()
@@ -65,12 +96,15 @@ def run(ctx):
             re.compile(p)
         except Exception:
             continue
+        if not anchors_only_at_ends(p):
+            continue
         pats.append((p, None))
         if ctx.rnd.random() < .35:
             q, u = gen_regex.embed_unsupported(ctx.rnd, p)
             try:
                 re.compile(q)
-                pats.append((q, u))
+                if anchors_only_at_ends(q):
+                    pats.append((q, u))
             except Exception:
                 pass
     reqs, exp, info = [], [], []
